@@ -228,6 +228,28 @@ class SmallSet {
 
   explicit SmallSet(const Compare &comp, const Alloc &alloc = Alloc()) : _set(comp, alloc) {}
 
+  SmallSet(const SmallSet &) = default;
+  SmallSet(SmallSet &&) = default;
+  SmallSet &operator=(SmallSet &&) = default;
+  ~SmallSet() = default;
+
+  /// The copy assignments of the two underlying containers only provide the basic exception guarantee: if a copy
+  /// throws, the small container could hold duplicates, or both containers could hold elements.
+  /// Make sure we stay a valid (empty) set.
+  SmallSet &operator=(const SmallSet &o) {
+    if (AMC_LIKELY(this != &o)) {
+      try {
+        _vec = o._vec;
+        _set = o._set;
+      } catch (...) {
+        _vec.clear();
+        _set.clear();
+        throw;
+      }
+    }
+    return *this;
+  }
+
   explicit SmallSet(const Alloc &alloc) : _set(alloc) {}
 
   template <class InputIt>
